@@ -296,8 +296,19 @@ class CSSImportRule(cssrule.CSSRule):
 
             fullhref = urllib.parse.urljoin(parentHref, self.href)
 
+            # hrefs of the sheets this rule is (indirectly) imported by
+            importing = []
+            sheet = self.parentStyleSheet
+            while sheet is not None:
+                importing.append(sheet.href)
+                sheet = sheet.ownerRule.parentStyleSheet if sheet.ownerRule else None
+
             # all possible exceptions are ignored
             try:
+                if fullhref in importing:
+                    # catched in next except below!
+                    raise OSError('Cyclic @import.')
+
                 usedEncoding, enctype, cssText = self.parentStyleSheet._resolveImport(
                     fullhref
                 )
